@@ -61,11 +61,14 @@ COST_SHAPES = [
      '(uc.USeq(a), uc.UMap(d))', 3, []),
     # a conforming container next to the culprit: the explanation visits the sibling too
     ('Tuple_seq_int', 'Tuple[Sequence[int], int]', [('a', LOI), ('b', 'Optional[int]')], '(uc.USeq(a), b)', 1, []),
+    # a mapping whose *value* hint is ignorable, next to the culprit
+    ('Tuple_mapAny_int', 'Tuple[Mapping[int, Any], int]', [('d', 'Dict[int, Optional[int]]'), ('b', 'Optional[int]')], '(uc.UMap(d), b)', 2, []),
+    ('Tuple_mapKeyAny_int', 'Tuple[Mapping[Any, int], int]', [('d', 'Dict[int, int]'), ('b', 'Optional[int]')], '(uc.UMap(d), b)', 2, []),
     ('Tuple_int_map', 'Tuple[int, Mapping[int, int]]', [('b', 'Optional[int]'), ('d', 'Dict[int, Optional[int]]')], '(b, uc.UMap(d))', 2, []),
     ('Seq_Seq_int', 'Sequence[Sequence[int]]', [('a', 'List[List[Optional[int]]]')], 'uc.USeq([uc.USeq(v) for v in a])', 2,
      ['len(a) <= 3', 'all(len(v) <= 2 for v in a)']),
 ]
-WARM = {'Optional[int]': ['1', 'None'], LOI: ['[1]', '[None]', '[]', '[1, None]'], 'Dict[int, Optional[int]]': ['{1: 1}', '{1: None}', '{}'],
+WARM = {'Dict[int, int]': ['{1: 1}', '{}', '{1: 2, 3: 4}'], 'Optional[int]': ['1', 'None'], LOI: ['[1]', '[None]', '[]', '[1, None]'], 'Dict[int, Optional[int]]': ['{1: 1}', '{1: None}', '{}'],
         'Dict[Optional[int], int]': ['{1: 1}', '{None: 1}', '{}'], 'bool': ['True', 'False'],
         'List[List[Optional[int]]]': ['[[1]]', '[[None]]', '[]']}
 
@@ -105,7 +108,8 @@ def specs_c09(tier, seed=0):
     if tier == 'quick':
         return [cost_spec(byname['Sequence_int'], {}, 'default'), cost_spec(byname['Mapping_int_int'], {}, 'default'),
                 cost_spec(byname['Iterable_noncollection'], {}, 'default'),
-                cost_spec(byname['Tuple_seq_int'], {'is_random': False}, 'nonrandom')]
+                cost_spec(byname['Tuple_seq_int'], {'is_random': False}, 'nonrandom'),
+                cost_spec(byname['Tuple_mapAny_int'], {}, 'default')]
     for s in COST_SHAPES:
         out.append(cost_spec(s, {}, 'default'))
         out.append(cost_spec(s, {'is_random': False}, 'nonrandom'))
@@ -123,6 +127,11 @@ EFFECT_SHAPES = [
     ('Union_Iterator_str', 'Union[Iterator[int], str]', [('a', LOI)], 'uc.UIterator(a)', 'x._k', []),
     ('List_Iterable', 'List[Iterable[int]]', [('a', LOI)], '[uc.UIterator(a)]', 'x[0]._k', []),
     ('Sequence_user_contents', 'Sequence[int]', [('a', LOI)], 'uc.USeq(a)', 'len(x._i)', []),
+    # spies whose __bool__ (and other special methods outside the read-only protocol) are recorded
+    ('Mapping_user_foreign', 'Mapping[int, int]', [('d', 'Dict[int, Optional[int]]')], 'uc.UMap(d)', 'len(x._d)', []),
+    ('Tuple_map_int_foreign', 'Tuple[Mapping[int, int], int]', [('d', 'Dict[int, Optional[int]]'), ('b', 'Optional[int]')], '(uc.UMap(d), b)', 'len(x[0]._d)', []),
+    ('Tuple_seq_int_foreign', 'Tuple[Sequence[int], int]', [('a', LOI), ('b', 'Optional[int]')], '(uc.USeq(a), b)', 'len(x[0]._i)', []),
+    ('Collection_user_foreign', 'Collection[int]', [('a', LOI)], 'uc.UColl(a)', 'len(x._i)', []),
 ]
 
 
@@ -132,7 +141,7 @@ def effect_spec(shape, confkw, tag):
     setup = SETUP.format(hint=hint, confkw=confkw, k=0, pnames=pnames, build=build)
     setup += ('\n\ndef fret(v):\n    return v\nfret.__annotations__ = {"return": H}\nDECRET = beartype(conf=CONF)(fret)\n'
               'SEEN = []\n\n\ndef frec(p):\n    SEEN.append(p)\n    return None\nfrec.__annotations__ = {"p": H}\nDECREC = beartype(conf=CONF)(frec)\n')
-    body = (f'x = make({pnames})\nbefore = {snap}\nPIN.value = r\n'
+    body = (f'x = make({pnames})\nbefore = {snap}\ndel uc.FOREIGN[:]\nPIN.value = r\n'
             f'try:\n    res = run_checks(x)\n'
             f'    try:\n        DECRET(x)\n    except BeartypeCallHintViolation:\n        pass\n'
             f'    del SEEN[:]\n'
@@ -141,6 +150,7 @@ def effect_spec(shape, confkw, tag):
             f'if isinstance(res, str):\n    LAST[0] = res\n    return False\n'
             f'after = {snap}\n'
             f'if before != after:\n    LAST[0] = "the check changed its subject: %r -> %r" % (before, after)\n    return False\n'
+            f'if uc.FOREIGN:\n    LAST[0] = "the check ran user code outside the read-only protocol: %r" % (uc.FOREIGN[:4],)\n    return False\n'
             f'if passed and not (len(SEEN) == 1 and SEEN[0] is x):\n    LAST[0] = "the wrapped callable did not receive the identical argument"\n    return False\n'
             f'LAST[0] = "ok"\nreturn True')
     return Spec(f'{name}__{tag}', params + [('r', 'int')], body, setup=setup, pre=list(pre) + ['0 <= r < 2**32'],
@@ -151,7 +161,7 @@ WARM['Optional[int]'] = ['1', 'None']
 
 
 def specs_c10(tier, seed=0):
-    shapes = EFFECT_SHAPES if tier != 'quick' else [EFFECT_SHAPES[i] for i in (0, 3, 5)]
+    shapes = EFFECT_SHAPES if tier != 'quick' else [EFFECT_SHAPES[i] for i in (0, 3, 5, 8)]
     out = [effect_spec(s, {}, 'default') for s in shapes]
     if tier != 'quick':
         out += [effect_spec(s, {'violation_type': 'VerifWarning'}, 'warn') for s in EFFECT_SHAPES[:6]]
